@@ -22,7 +22,7 @@ func init() {
 			"field of both cost structs has an unsigned integer kind (the reflective check skips none); the broadcast calls SetNewGasConfig on every key of the container with the stored schedule. R4: every sender-side success path of a priced entry point " +
 			"passes a charge of the own cost (a GasRemaining value containing -cost, or the saturating helper applied to cost); plain GasProvided is stored only where the sender account is absent or a charge follows. Does NOT decide: the consumed amount as a number.",
 		Trusted: []string{"T-REG (spec/registry.json): cost field and per-byte fields per protocol name", "mapstructure.Decode fills the struct from the map", "check.ForZeroUintFields semantics (its field-kind filter is matched against the struct definitions)"},
-		Rules:   []func(*Ctx){c16r1, c16r2, c16r3, c16r4},
+		Rules:   []func(*Ctx){c16r1, c16r2, c16r3, c16r4, c16r5},
 	})
 }
 
@@ -429,6 +429,34 @@ func c16r3(c *Ctx) {
 	}
 	if n < 2 {
 		c.Anchor(rule, "the schedule store and the broadcast in GasScheduleChange")
+	}
+	// (a2) every schedule handed in is judged by the decoder: no return is reachable without the decoder having been called
+	// (a short-cut like "same as last time" decides acceptance by something else than the schedule's content)
+	decodes := map[ssa.Instruction]bool{}
+	for _, b := range change.Blocks {
+		for _, in := range b.Instrs {
+			if call, ok := in.(*ssa.Call); ok && call.Call.StaticCallee() == create {
+				decodes[in] = true
+			}
+		}
+	}
+	if len(decodes) == 0 {
+		c.Anchor(rule, "the call of the schedule decoder in GasScheduleChange")
+	} else {
+		bad := ""
+		for _, r := range returnsOf(change) {
+			if instrReaches(change, nil, r, decodes) {
+				bad = c.P.InstrPos(r)
+			}
+		}
+		construct := "every schedule handed in is decoded and validated"
+		if bad == "" {
+			c.OK(rule, FuncName(change), construct, c.P.Pos(change.Pos()), "no return is reachable without the decoder call")
+		} else {
+			c.FailX(Oblig{Rule: rule, Func: FuncName(change), Construct: construct, Pos: c.P.Pos(change.Pos()), Kind: "violation",
+				Detail:   "GasScheduleChange can return at " + bad + " without having decoded the schedule it was given: an acceptable schedule is dropped and the previous prices stay in force",
+				Expected: "the only early return is the one taken when the decoder rejects the schedule"})
+		}
 	}
 	// (b) the decoder's success is cut by the zero-field check of each struct that flows into the result
 	ce := c.P.Env(create)
